@@ -188,6 +188,25 @@ pub fn drive_boxes(args: &[String]) {
             pair_ops!(&mut d, a, b, j3, valid3, pos3, contains_aabb, collides_with_aabb, collision_vector_with_aabb, into_rect3, contains_rect3, collides_with_rect3, collision_vector_with_rect3, rj3);
         }
     }
+    // floats: points just outside a box.  The box [-1,0]^n has its max corner at the origin, so a point at (delta, -1/2, ..)
+    // is at distance exactly delta and (3 delta, 4 delta, ..) at 5 delta, for every power of two delta; logged: distance/expected * 2^20
+    for k in [4i32, 10, 13, 20, 27, 33, 40, 60] {
+        let r = |x: f64| if x.is_finite() { (x * 1048576.0).round() as i64 } else { -1 };
+        let dl = 2f64.powi(-k);
+        let b2 = Aabr { min: Vec2::new(-1f64, -1.0), max: Vec2::new(0f64, 0.0) };
+        let b3 = Aabb { min: Vec3::new(-1f64, -1.0, -1.0), max: Vec3::new(0f64, 0.0, 0.0) };
+        d.call("box_distance_f", || json!({"ty": "Aabr<f64>", "k": k, "where": "face"}), || json!(r(b2.distance_to_point(Vec2::new(dl, -0.5)) / dl)));
+        d.call("box_distance_f", || json!({"ty": "Aabr<f64>", "k": k, "where": "corner"}), || json!(r(b2.distance_to_point(Vec2::new(3.0 * dl, 4.0 * dl)) / (5.0 * dl))));
+        d.call("box_distance_f", || json!({"ty": "Aabb<f64>", "k": k, "where": "face"}), || json!(r(b3.distance_to_point(Vec3::new(-0.25, dl, -0.5)) / dl)));
+        d.call("box_distance_f", || json!({"ty": "Aabb<f64>", "k": k, "where": "corner"}), || json!(r(b3.distance_to_point(Vec3::new(3.0 * dl, -0.5, 4.0 * dl)) / (5.0 * dl))));
+        if k <= 40 {
+            let dl = 2f32.powi(-k);
+            let b2 = Aabr { min: Vec2::new(-1f32, -1.0), max: Vec2::new(0f32, 0.0) };
+            let b3 = Aabb { min: Vec3::new(-1f32, -1.0, -1.0), max: Vec3::new(0f32, 0.0, 0.0) };
+            d.call("box_distance_f", || json!({"ty": "Aabr<f32>", "k": k, "where": "face"}), || json!(r((b2.distance_to_point(Vec2::new(dl, -0.5)) / dl) as f64)));
+            d.call("box_distance_f", || json!({"ty": "Aabb<f32>", "k": k, "where": "corner"}), || json!(r((b3.distance_to_point(Vec3::new(3.0 * dl, -0.5, 4.0 * dl)) / (5.0 * dl)) as f64)));
+        }
+    }
     d.finish(arg(args, "--summary"));
 }
 
@@ -323,5 +342,5 @@ pub fn drive_shapes(args: &[String]) {
     let mut d = Drv::new(&arg(args, "--out").expect("--out"), seed);
     if lane == "z" { for _ in 0..n { shapes_int(&mut d); } }
     else { set_pair_mode(true); for _ in 0..n { shapes_q(&mut d); } }
-    d.finish(arg(args, "--summary"));
+        d.finish(arg(args, "--summary"));
 }
